@@ -108,9 +108,22 @@ func judgeC05(c *Ctx, sc *Scenario) *Violation {
 	}
 	id := sc.Clone()
 	id.Enum = EnumSched{Mode: "identity"}
+	id.NsPerTick, id.Env = 0, nil
 	r0 := c.sim(c.B.FcVerif, id)
 	r1 := c.sim(c.B.FcVerif, sc)
-	return c05Compare(r0, r1)
+	v := c05Compare(r0, r1)
+	if v != nil && nonIdentitySites(r1) == "" {
+		// no enumeration point is permuted any more: what is left of the difference is the clock or the environment
+		switch {
+		case sc.NsPerTick > 1 && len(sc.Env) == 0:
+			v.Signature = v.Class + "@clock"
+			v.Detail = fmt.Sprintf("with the simulated wall clock at %d ns per step (a slow machine) and nothing else changed: %s", sc.NsPerTick, v.Detail)
+		case len(sc.Env) > 0 && sc.NsPerTick <= 1:
+			v.Signature = v.Class + "@environment"
+			v.Detail = fmt.Sprintf("with environment %v and nothing else changed: %s", sc.Env, v.Detail)
+		}
+	}
+	return v
 }
 
 // shrinkTape minimises the enumeration schedule of a failing scenario: seeded -> explicit tape, ddmin over
@@ -189,9 +202,11 @@ func shrinkC05(c *Ctx, sc *Scenario, v *Violation, judge Judge) (*Scenario, *Vio
 }
 
 type c05Item struct {
-	prog  *Program
-	sched EnumSched
-	run   int
+	prog      *Program
+	sched     EnumSched
+	run       int
+	nsPerTick int64
+	env       []string
 }
 
 func checkC05(tier string) {
@@ -298,7 +313,22 @@ func checkC05(tier string) {
 					s.To = 1 + pr.Intn(n)
 				}
 			}
-			items = append(items, c05Item{pl.p, s, i*1000 + j})
+			it := c05Item{prog: pl.p, sched: s, run: i*1000 + j}
+			// swarm: the speed of the simulated wall clock and the process environment are part of what a run must
+			// not depend on ("the process, or how many times it is run")
+			if j%3 == 1 {
+				it.nsPerTick = []int64{1000, 1_000_000, 50_000_000}[pr.Intn(3)]
+			}
+			if j%3 == 2 {
+				pool := []string{"HOME=/nonexistent/home", "USER=someone", "LANG=ja_JP.UTF-8", "LC_ALL=C", "TZ=Asia/Tokyo", "TMPDIR=/nonexistent/tmp",
+					"TERM=dumb", "NO_COLOR=1", "DEBUG=1", "VERBOSE=1", "FC_DEBUG=1", "FOLANG_PATH=/nonexistent", "GOPATH=/nonexistent/go", "PWD=/nonexistent/pwd"}
+				for _, e := range pool {
+					if pr.Chance(1, 3) {
+						it.env = append(it.env, e)
+					}
+				}
+			}
+			items = append(items, it)
 		}
 	}
 	c.phase(fmt.Sprintf("seeded runs: %d", len(items)))
@@ -316,6 +346,14 @@ func checkC05(tier string) {
 		sc := it.prog.scenario("C05", c.Seed, it.run)
 		sc.Enum = it.sched
 		sc.TickBudget = c05Budget
+		sc.NsPerTick = it.nsPerTick
+		sc.Env = it.env
+		if it.nsPerTick > 1 {
+			c.count(fmt.Sprintf("fault_fired:slow_clock_ns_per_tick=%d", it.nsPerTick), 1)
+		}
+		if len(it.env) > 0 {
+			c.count("fault_fired:environment_varied", 1)
+		}
 		r1 := c.sim(c.B.FcVerif, sc)
 		r0 := ids[progIndex[it.prog]]
 		if r1.PermutedPoints() > 0 && c.markDistinct("pair:"+sc.Hash()+"|"+r1.EnumTraceHash()) {
@@ -491,7 +529,7 @@ func checkC05(tier string) {
 			"programs_accepted_identity":     accepted,
 			"schedule_styles":                enumStyles,
 			"shipped_binary_observation":     "tag-off uninstrumented fc on a real directory under Go's own map randomisation, compared with the simulated identity run; observation only, the deciding step is the schedule search",
-			"fault_kinds_injected":           "none (C05 is the fault-free configuration; the explored dimension is enumeration order)",
+			"fault_kinds_injected":           "no I/O fault (C05 is the fault-free configuration). Environment dimensions that are scheduled: dictionary enumeration order (every seeded run), speed of the simulated wall clock (a third of the seeded runs: 1e3, 1e6 or 5e7 ns per step; dormant while fc reads no clock), process environment (a third: random subset of 14 variables); counts under counters fault_fired:*",
 			"tick_budget_per_child":          c05Budget,
 			"simulated_time_covered_ticks":   c.TotalTicks,
 		},
